@@ -208,6 +208,14 @@ def gen_secret(r, cls, length=None, like=None):
     if cls == "j9p":       # a Juniper plaintext (identity); encodings are rendered per occurrence
         n = length or r.randint(10, 14)
         return r.choice(GZ) + "".join(r.choice(GZ + "GHJKLMNPQRSTUVWXYZ23456789") for _ in range(n - 2)) + r.choice(GZ)
+    if cls == "j9p-num":   # a Juniper plaintext that is itself all digits
+        n = length or r.randint(10, 13)
+        return r.choice("23456789") + "".join(r.choice("0123456789") for _ in range(n - 1))
+    if cls == "j9p-hex":
+        n = length or r.randint(10, 13)
+        return r.choice("abcdef") + "".join(r.choice("0123456789abcdef") for _ in range(n - 2)) + "f"
+    if cls == "c9":        # Cisco type 9 (scrypt): $9$ prefix but not a Juniper encoding (inner '$')
+        return "$9$" + "".join(r.choice(B64) for _ in range(14)) + "$" + "".join(r.choice(B64) for _ in range(43))
     if cls == "aws":
         return "".join(r.choice("ghijklmnopqrstuvwxyzGHIJKLMNOPQRSTUVWXYZ_") for _ in range(32))
     raise ValueError(cls)
